@@ -337,13 +337,19 @@ def make_key(kind, detail, node, env):
                 cls = "divisor=INT_MIN"
         except (refsem.Undef, refsem.Unsupported):
             pass
+    if node.is_mem():
+        # C has a single memory model: what matters is the kind and width of the pointer expression
+        w = ""
+        cls = "ptr=%s/%d" % (xc.kind(node.ptr), node.ptr.size)
     if kind == "dies":
         # the count class is what matters for shifts/rotations, not the width parity
         cls = cls.split(" ")[-1] if cls.startswith("width=") else cls
+        if detail == "asan FPE":
+            return ("arithmetic trap (SIGFPE) op=%s %s %s" % (k, w, cls)).strip()
         if detail.startswith("asan"):
             return ("memory error op=%s %s %s" % (k, w, cls)).strip()
         return ("process ends op=%s %s (%s) %s" % (k, w, detail, cls)).strip()
-    return ("wrong value op=%s %s %s" % (k, w, cls)).strip()
+    return " ".join(("wrong value op=%s %s %s" % (k, w, cls)).split())
 
 
 def describe(kind, detail, want, o):
